@@ -177,6 +177,18 @@ func runC18(c *Ctx, r *Report) {
 					}
 				}
 			}
+			// the same fields given in a literal of the wire struct: links := &EntryV2{Next: …, Refs: …}
+			if cl, ok := n.(*ast.CompositeLit); ok && namedOf(p.TypeOf(fn, cl)) == wire {
+				for _, el := range cl.Elts {
+					if kv, ok := el.(*ast.KeyValueExpr); ok {
+						if id, ok := kv.Key.(*ast.Ident); ok && linkFields[id.Name] {
+							if pred(&ast.SelectorExpr{X: cl, Sel: id}, kv.Value) {
+								out[id.Name] = true
+							}
+						}
+					}
+				}
+			}
 			return true
 		})
 		return out
